@@ -516,12 +516,18 @@ func (cond *Condition) IntSliceValue() ([]int64, error) {
 
 func formatValue(v interface{}) string {
 	switch v := v.(type) {
+	case nil:
+		return "null"
 	case string:
 		return fmt.Sprintf("%q", v)
+	case float64:
+		return formatFloat(v)
 	case []interface{}:
 		return joinInterfaceSlice(v)
 	case []uint64:
 		return joinUint64Slice(v)
+	case []int64:
+		return joinInt64Slice(v)
 	case time.Time:
 		return fmt.Sprintf("\"%s\"", v.Format(timeFormat))
 	case *Condition:
@@ -529,6 +535,17 @@ func formatValue(v interface{}) string {
 	default:
 		return fmt.Sprintf("%v", v)
 	}
+}
+
+// formatFloat prints f so that the parser reads it back as the same float64:
+// no exponent, and always with a decimal point (an integer literal would be
+// parsed as an int64).
+func formatFloat(f float64) string {
+	s := strconv.FormatFloat(f, 'f', -1, 64)
+	if !strings.Contains(s, ".") {
+		s += ".0"
+	}
+	return s
 }
 
 // CopyArgs returns a copy of m.
@@ -543,12 +560,15 @@ func CopyArgs(m map[string]interface{}) map[string]interface{} {
 func joinInterfaceSlice(a []interface{}) string {
 	other := make([]string, len(a))
 	for i := range a {
-		switch v := a[i].(type) {
-		case string:
-			other[i] = fmt.Sprintf("%q", v)
-		default:
-			other[i] = fmt.Sprintf("%v", v)
-		}
+		other[i] = formatValue(a[i])
+	}
+	return "[" + strings.Join(other, ",") + "]"
+}
+
+func joinInt64Slice(a []int64) string {
+	other := make([]string, len(a))
+	for i := range a {
+		other[i] = strconv.FormatInt(a[i], 10)
 	}
 	return "[" + strings.Join(other, ",") + "]"
 }
